@@ -205,12 +205,12 @@ def check(chk: Check) -> None:
     n_eval = 0
     for p in SymExec(F, fi).run():
         evals = [e for e in p.events if e.kind == 'call' and e.resolved is None and isinstance(freeze(e.func), tuple)
-                 and freeze(e.func)[0] == 'attr' and freeze(e.func)[2] == 'eval' and e.depth() == 0]
+                 and freeze(e.func)[0] == 'attr' and freeze(e.func)[2] == 'eval']
         if not evals:
             continue
         n_eval += 1
         for cls in ('smartquery.scoped_dict.ScopedDict', 'smartquery.vm_state.VMState'):
-            made = [e for e in p.events if e.kind == 'call' and e.d.get('ctor') and e.resolved == cls and e.depth() == 0]
+            made = [e for e in p.events if e.kind == 'call' and e.d.get('ctor') and e.resolved == cls]
             if len(made) != 1:
                 problems.append('%d %s objects constructed on an evaluating path' % (len(made), cls.rsplit('.', 1)[-1]))
     chk.require(not problems and n_eval, R4, q, fi.where, '; '.join(sorted(set(problems))) or
@@ -229,9 +229,16 @@ def _is_ply_call(e: Event, selft) -> bool:
 def _module_state(chk: Check) -> List[Tuple[str, str, str]]:
     F = chk.facts
     out = []
+    from .. import functab
+    import_only = set()
+    for mn in F.modules:
+        if '.ply' not in mn:
+            import_only.update(functab.import_time_only_writers(F, mn))
     for q, fi in sorted(F.functions.items()):
         if '.ply' in fi.module.name or fi.module.name.endswith('.repl'):
             continue
+        if q in import_only or any(q.startswith(o + '.') for o in import_only):
+            continue        # runs while the module is imported and never again: it builds the module's initial state
         for n in ast.walk(fi.node):
             if isinstance(n, ast.Global):
                 out.append(('%s :: global %s' % (q, ', '.join(n.names)), '%s:%d' % (fi.module.rel, n.lineno),
